@@ -336,6 +336,11 @@ UnaryAll(c) ==
       sz == Len(x.e)
       room == LenBound - sz            \* how many elements may be added
       cnts == Counts(sz)
+      \* "just too many for the capacity": from EVERY explored (size, capacity) state one count that overflows the current
+      \* capacity by one, however large that is (a shrunk container with a big buffer and few elements included); the
+      \* resulting state lies outside the length bound and is not explored further (CONSTRAINT Bound)
+      over == IF Profile \in {"one", "impl", "max"} THEN {x.cap - sz + 1} \cap (1..Min(MaxCap + 1, 9)) ELSE {}
+      cntsO == cnts \cup over
   IN
      {O("push_back", c, "-", <<al>>) : al \in IF room >= 1 /\ Copyable THEN Aliases(sz) ELSE {}}
   \cup {O("push_back_m", c, "-", <<>>) : z \in IF room >= 1 THEN {0} ELSE {}}
@@ -343,19 +348,19 @@ UnaryAll(c) ==
   \cup {O("emplace_back_v", c, "-", <<>>) : z \in IF room >= 1 THEN {0} ELSE {}}
   \cup {O(nm, c, "-", <<pos, al>>) : nm \in {"insert", "emplace_c"}, pos \in IF room >= 1 /\ Copyable THEN Positions(sz) ELSE {}, al \in Aliases(sz)}
   \cup {O(nm, c, "-", <<pos>>) : nm \in {"insert_m", "emplace_v"}, pos \in IF room >= 1 THEN Positions(sz) ELSE {}}
-  \cup {O("insert_n", c, "-", <<pos, n, al>>) : pos \in IF Copyable THEN Positions(sz) ELSE {}, n \in cnts, al \in Aliases(sz)}
-  \cup {O("insert_rng", c, "-", <<pos, k, n>>) : pos \in Positions(sz), k \in Kinds \ {7}, n \in cnts}
+  \cup {O("insert_n", c, "-", <<pos, n, al>>) : pos \in IF Copyable THEN Positions(sz) ELSE {}, n \in cntsO, al \in Aliases(sz)}
+  \cup {O("insert_rng", c, "-", <<pos, k, n>>) : pos \in Positions(sz), k \in Kinds \ {7}, n \in cntsO}
   \cup {O("insert_il", c, "-", <<pos, n>>) : pos \in IF Copyable THEN Positions(sz) ELSE {}, n \in cnts \cap (0..6)}
-  \cup {O("append_rng", c, "-", <<k, n>>) : k \in Kinds, n \in cnts}
+  \cup {O("append_rng", c, "-", <<k, n>>) : k \in Kinds, n \in cntsO}
   \cup {O("append_il", c, "-", <<n>>) : n \in IF Copyable THEN cnts \cap (0..6) ELSE {}}
-  \cup {O("assign_n", c, "-", <<n>>) : n \in IF Copyable THEN Sizes ELSE {}}
-  \cup {O("assign_rng", c, "-", <<k, n>>) : k \in Kinds, n \in Sizes}
+  \cup {O("assign_n", c, "-", <<n>>) : n \in IF Copyable THEN Sizes \cup {m + sz : m \in over} ELSE {}}
+  \cup {O("assign_rng", c, "-", <<k, n>>) : k \in Kinds, n \in Sizes \cup {m + sz : m \in over}}
   \cup {O(nm, c, "-", <<n>>) : nm \in {"assign_il", "opeq_il"}, n \in IF Copyable THEN Sizes \cap (0..6) ELSE {}}
   \cup {O("erase", c, "-", <<pos>>) : pos \in Positions(sz) \cap (0..(sz - 1))}
   \cup {O("erase_rng", c, "-", <<fl[1], fl[2]>>) : fl \in {p \in Positions(sz) \X Positions(sz) : p[1] <= p[2]}}
   \cup {O("pop_back", c, "-", <<>>) : z \in IF sz > 0 THEN {0} ELSE {}}
   \cup {O("clear", c, "-", <<>>), O("shrink", c, "-", <<>>), O("dtor", c, "-", <<>>)}
-  \cup {O("resize", c, "-", <<n>>) : n \in Sizes}
+  \cup {O("resize", c, "-", <<n>>) : n \in Sizes \cup {m + sz : m \in over}}
   \cup {O("resize_v", c, "-", <<n, al>>) : n \in IF Copyable THEN Sizes ELSE {}, al \in Aliases(sz)}
   \cup {O("reserve", c, "-", <<n>>) : n \in IF Profile = "wide" THEN Sizes
                                              ELSE (0..Min(MaxCap, MaxSize + 1)) \cap {0, x.cap - 1, x.cap, x.cap + 1, 2 * x.cap + 1, MaxSize, MaxSize + 1, NOf(cfg, c) + 1}}
@@ -484,7 +489,7 @@ Spec == Init /\ [][Next]_<<st, hist, everBig, allocCount>>
 
 View == <<st, everBig, allocCount > 0>>
 
-Bound == /\ \A c \in {"A", "B"} : st[c].p => st[c].cap <= MaxCap
+Bound == /\ \A c \in {"A", "B"} : st[c].p => st[c].cap <= MaxCap /\ Len(st[c].e) <= LenBound
          /\ (Profile = "wide" => Len(hist) <= 1)
 
 (***************************************************************************)
